@@ -17,8 +17,8 @@ Qed.
 
 (* projections through the setters: all by computation *)
 Ltac ssimpl :=
-  cbn [cs sock regw outq ping incb proto nsock sched scr tr
-       emit set_cs set_sock set_regw set_outq set_ping set_incb set_proto set_nsock set_sched set_scr
+  cbn [cs sock regw outq ping incb cq proto nsock sched scr tr
+       emit set_cs set_sock set_regw set_outq set_ping set_incb set_cq set_proto set_nsock set_sched set_scr
        push_front obs fst snd] in *.
 
 Lemma KS_frame {K} (kev : K -> event -> K) k0 s s' : tr s' = tr s -> KS kev k0 s' = KS kev k0 s.
@@ -88,7 +88,7 @@ Qed.
 Lemma pop_script_frame si s :
   let s' := snd (pop_script si s) in
   cs s' = cs s /\ sock s' = sock s /\ regw s' = regw s /\ outq s' = outq s /\ ping s' = ping s /\
-  incb s' = incb s /\ proto s' = proto s /\ nsock s' = nsock s /\ sched s' = sched s /\ tr s' = tr s.
+  incb s' = incb s /\ cq s' = cq s /\ proto s' = proto s /\ nsock s' = nsock s /\ sched s' = sched s /\ tr s' = tr s.
 Proof.
   destruct si; unfold pop_script;
     match goal with |- context [pop_list ?l] => destruct (pop_list l) end; cbn; repeat split.
@@ -131,7 +131,7 @@ Definition tev_ps (e : event) : bool :=
 Record same_core (s s' : st) : Prop := mkCore {
   co_sock : sock s' = sock s; co_regw : regw s' = regw s; co_outq : outq s' = outq s;
   co_scr : scr s' = scr s; co_nsock : nsock s' = nsock s; co_proto : proto s' = proto s;
-  co_ping : ping s' = ping s; co_incb : incb s' = incb s; co_sched : sched s' = sched s }.
+  co_ping : ping s' = ping s; co_incb : incb s' = incb s; co_sched : sched s' = sched s; co_cq : cq s' = cq s }.
 
 Definition teardown_rel (s s' : st) : Prop :=
   same_core s s' /\ (cs s' = cs s \/ cs s' = CsDisconnected) /\
